@@ -9,13 +9,20 @@
 //!             I = count / sum / xor of a 64-bit hash of every produced query's canonical text;
 //!             S = count computed in Coq as the product of the field lengths (theorem grid_count) and
 //!                 the digest of the expected queries enumerated here, independently of the plugin
+//!   bindings: batches of JSON strings through CompassAppBindings::{from_config_toml_string, run_queries} on an
+//!             app whose configuration enables grid_search; I = number + sorted multiset of the `request` echoes
+//!             of the returned responses; S = concatenation of GS.spec over the batch (Coq), sorted
 //!   gridset : I = produced queries as a sorted list of texts       vs  S = specification
 //!             (Cartesian product built directly in Coq, sorted)    and M = model, sorted
 use routee_compass::app::compass::compass_app::apply_input_plugins;
 use routee_compass::app::compass::config::compass_app_builder::CompassAppBuilder;
 use routee_compass::plugin::input::input_plugin::InputPlugin;
 use routee_compass_core::util::multiset::MultiSet;
+use routee_compass::app::bindings::CompassAppBindings;
+use routee_compass::app::compass::compass_app::CompassApp;
+use routee_compass::app::compass::compass_app_error::CompassAppError;
 use serde_json::{json, Map, Value};
+use verif_harness::appkit::{self, AppCfg, InPlugin, Net};
 use std::sync::Arc;
 use verif_harness::*;
 
@@ -867,10 +874,146 @@ fn big_main(a: &Args, header: &str) {
     st.finish();
 }
 
+// ---------------------------------------------------------------- stream bindings: run_queries
+
+/// what routee-compass-py does: a wrapper struct holding the app, the trait's default methods
+struct BindApp {
+    app: CompassApp,
+}
+impl CompassAppBindings for BindApp {
+    fn from_config_toml_string(config_string: String, original_file_path: String) -> Result<Self, CompassAppError> {
+        let app = CompassApp::try_from_config_toml_string(config_string, original_file_path, &CompassAppBuilder::default())?;
+        Ok(BindApp { app })
+    }
+    fn app(&self) -> &CompassApp {
+        &self.app
+    }
+}
+fn bind_case(st: &mut Stream, app: &BindApp, batch: Vec<Value>, family: &str) {
+    let id = st.next_id();
+    let strings: Vec<String> = batch.iter().map(|q| q.to_string()).collect();
+    let imp = match catch(std::panic::AssertUnwindSafe(|| app.run_queries(strings, None))) {
+        Err(_) => "Panic".to_string(),
+        Ok(Err(e)) => format!("Err {}", e.to_string().chars().take(80).collect::<String>()),
+        Ok(Ok(out)) => {
+            let mut texts: Vec<String> = out
+                .iter()
+                .map(|s| match serde_json::from_str::<Value>(s) {
+                    Ok(v) => match v.get("request") {
+                        Some(r) => show_json(r, true),
+                        None => format!("<response without request: {}>", s.chars().take(60).collect::<String>()),
+                    },
+                    Err(_) => "<response is not JSON>".to_string(),
+                })
+                .collect();
+            texts.sort_by(|a, b| a.as_bytes().cmp(b.as_bytes()));
+            format!("Ok n={} [{}]", texts.len(), texts.join(","))
+        }
+    };
+    let dims: Vec<usize> = batch
+        .iter()
+        .map(|q| q.get("grid_search").and_then(|s| s.as_object()).map(|m| m.values().filter(|v| v.is_array()).count()).unwrap_or(0))
+        .collect();
+    st.count(&format!("family:{}", family));
+    st.count(&format!("batch_size:{}", batch.len()));
+    for (q, d) in batch.iter().zip(dims.iter()) {
+        st.count(&if q.get("grid_search").is_none() { "query:no_section".to_string() } else { format!("query:grid_dimensions:{}", d) });
+    }
+    if dims.iter().any(|d| *d >= 1) {
+        st.mark_nontrivial(&format!("{:?}", batch));
+    }
+    let term = format!("GSR.line_spec_batch {} {}", id, coq_list(&batch, coq_json));
+    st.case(vec![term], vec![format!("I {} {}", id, imp)], json!({"id": id, "family": family, "batch": batch}));
+}
+fn bind_query(r: &mut Rng, dims: usize, with_section: bool) -> Value {
+    let o = r.below(9);
+    let mut d = r.below(9);
+    if d == o {
+        d = (d + 1) % 9;
+    }
+    let mut entries: Vec<(String, Value)> = vec![("origin_vertex".into(), json!(o)), ("destination_vertex".into(), json!(d))];
+    if r.chance(1, 2) {
+        entries.push(("tag".into(), json!(*r.pick(&WORDS))));
+    }
+    if with_section {
+        let ks = distinct_keys(r, dims, &[]);
+        let lens: Vec<usize> = (0..dims).map(|_| r.range(1, 4) as usize).collect();
+        let extra = if r.chance(1, 4) { 1 } else { 0 };
+        let mut sec = section_of(&lens, &ks, extra, r);
+        if dims >= 1 && r.chance(1, 3) {
+            // an option list that changes the search itself
+            let alt: Vec<Value> = (0..9u64).filter(|v| *v != o).take(r.range(1, 3) as usize).map(|v| json!(v)).collect();
+            sec.as_object_mut().unwrap().insert("destination_vertex".into(), Value::Array(alt));
+        }
+        let pos = r.below(entries.len() as u64 + 1) as usize;
+        entries.insert(pos, ("grid_search".into(), sec));
+    }
+    Value::Object(entries.into_iter().collect())
+}
+fn bind_main(a: &Args, header: &str) {
+    let mut st = Stream::new(&a.out, "bindings", header, a.shards);
+    let mut cfg = AppCfg::basic(Net::grid(3, 3));
+    cfg.inputs = vec![InPlugin::GridSearch];
+    let dir = a.out.join("app");
+    let files = appkit::write_network(&dir, &cfg.net);
+    let toml = appkit::config_toml(&cfg, &files);
+    let conf = std::fs::canonicalize(&dir).unwrap().join("compass.toml");
+    std::fs::write(&conf, &toml).unwrap();
+    let app = BindApp::from_config_toml_string(toml, conf.to_str().unwrap().to_string()).expect("bindings app builds");
+    if let Some(p) = &a.replay {
+        st.full = true;
+        let v: Value = serde_json::from_str(&std::fs::read_to_string(p).unwrap()).unwrap();
+        let cases: Vec<Value> = match v.get("cases").and_then(|c| c.as_array()) {
+            Some(cs) => cs.iter().filter(|c| c.get("batch").is_some()).cloned().collect(),
+            None => vec![v["case"].clone()],
+        };
+        for c in cases {
+            let batch: Vec<Value> = c["batch"].as_array().unwrap().clone();
+            bind_case(&mut st, &app, batch, c["family"].as_str().unwrap_or("replay"));
+        }
+        st.finish();
+        return;
+    }
+    let plain = json!({"origin_vertex": 0, "destination_vertex": 8});
+    let g0 = json!({"origin_vertex": 0, "destination_vertex": 8, "grid_search": {}});
+    let g1 = json!({"origin_vertex": 0, "destination_vertex": 8, "grid_search": {"a": [1, 2, 3]}});
+    let g11 = json!({"origin_vertex": 1, "destination_vertex": 7, "grid_search": {"a": ["only"]}});
+    let g2 = json!({"origin_vertex": 0, "destination_vertex": 8, "grid_search": {"a": [1, 2], "name": ["x", "y", "z"]}});
+    let g2o = json!({"origin_vertex": 2, "destination_vertex": 6, "tag": "t", "grid_search": {"destination_vertex": [3, 4], "w": [{"name": "d1", "k": 1}, {"name": "t1"}, 5]}});
+    let g3 = json!({"origin_vertex": 4, "destination_vertex": 0, "grid_search": {"a": [1, 2], "b": [true], "c": [null, "s"]}});
+    for b in [
+        vec![plain.clone()], vec![g0.clone()], vec![g1.clone()], vec![g11.clone()], vec![g2.clone()], vec![g2o.clone()], vec![g3.clone()],
+        vec![plain.clone(), g2.clone()], vec![g2.clone(), plain.clone()], vec![g1.clone(), g2.clone()], vec![g2.clone(), g2.clone()],
+        vec![plain.clone(), g1.clone(), plain.clone(), g2o.clone()], vec![g0.clone(), g11.clone(), g3.clone()], vec![],
+    ] {
+        bind_case(&mut st, &app, b, "boundary");
+    }
+    let mut rng = Rng::new(a.seed ^ 0x62696e64);
+    while st.next_id() < a.n {
+        let mut r = rng.fork();
+        let nb = r.range(1, 3) as usize;
+        let batch: Vec<Value> = (0..nb)
+            .map(|_| match r.below(8) {
+                0 => bind_query(&mut r, 0, false),
+                1 => bind_query(&mut r, 0, true),
+                2 | 3 => bind_query(&mut r, 1, true),
+                4 | 5 | 6 => bind_query(&mut r, 2, true),
+                _ => bind_query(&mut r, 3, true),
+            })
+            .collect();
+        bind_case(&mut st, &app, batch, "random");
+    }
+    st.finish();
+}
+
 fn main() {
     silence_panics();
     let a = parse_args();
     let header = "From Coq Require Import ZArith List String Floats.\nFrom RC Require Import Base.Show Base.Json Model.GridSearch Model.GridSearchRun.\nImport ListNotations.\nOpen Scope Z_scope.";
+    if a.stream == "bindings" {
+        bind_main(&a, header);
+        return;
+    }
     if a.stream == "gridbig" {
         big_main(&a, header);
         return;
@@ -890,6 +1033,9 @@ fn main() {
             None => vec![v["case"].clone()],
         };
         for case in &cases {
+            if case.get("query").is_none() {
+                continue; // a corpus case of another stream (bindings batch)
+            }
             let chain = match case.get("chain") {
                 Some(c) if c.is_array() => chain_of_json(c),
                 _ => grid_n(case["napply"].as_u64().unwrap_or(1) as usize),
